@@ -171,6 +171,8 @@ pub struct Session<'a, B: SddBuilder<'a>> {
     /// mode c11: the slot to hash next (the result of xor / iff on two different pointers of one function: in an uncompressed
     /// builder a NODE that denotes a constant, whose hash sits on the boundary residues 0 and 1)
     hash_next: Option<usize>,
+    /// scripted steps: (operation, argument slots) forced for the next steps
+    script: std::collections::VecDeque<(&'static str, Vec<usize>)>,
 }
 
 /// structural copy of an SDD into another builder over the same vtree (through the public operations only)
@@ -249,8 +251,22 @@ impl<'a, B: SddBuilder<'a>> Session<'a, B> {
         w.extend(if mode == "c05" { [6usize, 6] } else { [0, 0] }); // expr, plan (BottomUpBuilder defaults, also on SDD builders)
         let mut op = OPS[rng.weighted(&w)];
         let seeding = self.next_slot < self.labels.len().min(K - 2) && self.next_slot < 6;
+        // semantic builder: every so often build a NODE that denotes a literal - (t AND x) OR (NOT t AND x) for a literal x and any t -
+        // and ask eq(x, node) both ways (a hash-identified builder must not judge two equal functions different)
+        if mode == "sem" && !seeding && self.script.is_empty() && rng.chance(1, 12) {
+            let r: Vec<usize> = (0..4).map(|k| 2 + ((self.next_slot + k) % (K - 2))).collect();
+            let xs: Vec<usize> = (2..K).filter(|i| self.pool[*i].is_var() && !r.contains(i)).collect();
+            let ts: Vec<usize> = (2..K).filter(|i| !self.pool[*i].is_var() && !self.pool[*i].is_const() && !r.contains(i)).collect();
+            if !xs.is_empty() && !ts.is_empty() {
+                let (x, t) = (xs[rng.below(xs.len())], ts[rng.below(ts.len())]);
+                self.script.extend([("and", vec![t, x]), ("neg", vec![t]), ("and", vec![r[1], x]), ("or", vec![r[0], r[2]]), ("eq", vec![x, r[3]]), ("eq", vec![r[3], x])]);
+            }
+        }
+        let forced = if seeding { None } else { self.script.pop_front() };
         if seeding {
             op = "var";
+        } else if let Some((fop, _)) = &forced {
+            op = fop;
         } else if mode == "c11" && self.hash_next.is_some() {
             op = "semhash";
         }
@@ -269,14 +285,14 @@ impl<'a, B: SddBuilder<'a>> Session<'a, B> {
                 Some(guarded(|| b.var(vl(v), p)))
             }
             "neg" => {
-                let a = self.arg(rng);
+                let a = match &forced { Some((_, f)) => f[0], None => self.arg(rng) };
                 ev["a"] = json!([a]);
                 let x = self.pool[a];
                 Some(guarded(|| b.negate(x)))
             }
             "and" | "or" | "xor" | "iff" => {
-                let (mut a, mut c) = (self.arg(rng), self.arg(rng));
-                if rng.chance(2, 3) {
+                let (mut a, mut c) = match &forced { Some((_, f)) => (f[0], f[1]), None => (self.arg(rng), self.arg(rng)) };
+                if forced.is_none() && rng.chance(2, 3) {
                     // steer towards the interesting case: two different pointers that (according to the library's own
                     // evaluator - this only chooses the arguments, the verdict is TLC's) denote the same function
                     let pool = &self.pool;
@@ -426,8 +442,8 @@ impl<'a, B: SddBuilder<'a>> Session<'a, B> {
         }
         let r: Result<(), String> = match op {
             "eq" => {
-                let (mut a, mut c) = (self.arg(rng), self.arg(rng));
-                if rng.chance(2, 3) {
+                let (mut a, mut c) = match &forced { Some((_, f)) => (f[0], f[1]), None => (self.arg(rng), self.arg(rng)) };
+                if forced.is_none() && rng.chance(2, 3) {
                     // steer towards the interesting case: two different pointers that (according to the library's own
                     // evaluator - this only chooses the arguments, the verdict is TLC's) denote the same function
                     let pool = &self.pool;
@@ -437,8 +453,20 @@ impl<'a, B: SddBuilder<'a>> Session<'a, B> {
                             .collect::<Vec<_>>()
                     });
                     if let Ok(tts) = tts {
+                        // first choice: a LITERAL (or constant) pointer against a different pointer - a node - of the same function
+                        let leafy: Vec<(usize, usize)> = (0..K)
+                            .flat_map(|s| (0..K).map(move |t| (s, t)))
+                            .filter(|(s, t)| s != t && tts[*s] == tts[*t] && pool[*s] != pool[*t] && (pool[*s].is_var() || pool[*s].is_const()) && !(pool[*t].is_var() || pool[*t].is_const()))
+                            .collect();
                         let same: Vec<usize> = (0..K).filter(|s| *s != a && tts[*s] == tts[a] && pool[*s] != pool[a]).collect();
-                        if !same.is_empty() {
+                        if !leafy.is_empty() && rng.chance(2, 3) {
+                            let (s, t) = leafy[rng.below(leafy.len())];
+                            a = s;
+                            c = t;
+                            if rng.coin() {
+                                std::mem::swap(&mut a, &mut c);
+                            }
+                        } else if !same.is_empty() {
                             c = same[rng.below(same.len())];
                             if rng.coin() {
                                 std::mem::swap(&mut a, &mut c);
@@ -541,7 +569,7 @@ fn run<'a, B: SddBuilder<'a>>(
 ) {
     let mut pool = vec![SddPtr::PtrTrue; K];
     pool[1] = SddPtr::PtrFalse;
-    let mut s = Session { b, ids: SddIds::new(), pool, nv, labels, next_slot: 0, semantic, cold, hash_next: None };
+    let mut s = Session { b, ids: SddIds::new(), pool, nv, labels, next_slot: 0, semantic, cold, hash_next: None, script: Default::default() };
     for _ in 0..len {
         if !s.step(rng, mode, out, sem_hash) {
             break;
